@@ -30,6 +30,7 @@ Requests
 -/
 import Yarel.Model.Basic
 import Yarel.Model.Iter
+import Yarel.Model.IterObj
 namespace Yarel.Drv.Iter
 
 open Yarel Yarel.Iter
@@ -129,7 +130,7 @@ def runVecOps (arg : String) : String :=
 
 /-! ### chain -/
 
-abbrev Src := Step VecIter Unit Int
+abbrev Src (σ : Type) := Step σ Unit Int
 
 def parseInts (s : String) : Option (List Int) :=
   if s == "-" then some []
@@ -137,7 +138,7 @@ def parseInts (s : String) : Option (List Int) :=
     | some i, some l => some (i :: l)
     | _, _ => none) (some [])
 
-def applyStage (fuel : Nat) (src : Src) (stage : String) : Option Src :=
+def applyStage {σ : Type} (fuel : Nat) (src : Src σ) (stage : String) : Option (Src σ) :=
   match stage.splitOn ":" with
   | ["map", "add", k] => k.toInt?.map fun k => mapNext src (pureFn fun a => .val (a + k))
   | ["map", "mul", k] => k.toInt?.map fun k => mapNext src (pureFn fun a => .val (a * k))
@@ -145,7 +146,7 @@ def applyStage (fuel : Nat) (src : Src) (stage : String) : Option Src :=
   | ["filter", "gt", k] => k.toInt?.map fun k => filterNext src (pureFn fun a => decide (a > k)) fuel
   | _ => none
 
-def runFinal (fuel : Nat) (src : Src) (it : VecIter) (final : String) : String :=
+def runFinal {σ : Type} (fuel : Nat) (src : Src σ) (it : σ) (final : String) : String :=
   match final.splitOn ":" with
   | ["collect"] => showFault (collect src fuel it ()) fun r => showItems r.2.2
   | ["reduce", "add", i] =>
@@ -156,7 +157,7 @@ def runFinal (fuel : Nat) (src : Src) (it : VecIter) (final : String) : String :
     | none => "bad-op"
   | _ => "bad-op"
 
-def runChainAux (fuel : Nat) (it : VecIter) : Src → List String → String
+def runChainAux {σ : Type} (fuel : Nat) (it : σ) : Src σ → List String → String
   | _, [] => "bad-op"
   | src, [final] => runFinal fuel src it final
   | src, stage :: rest =>
@@ -171,6 +172,51 @@ def runChain (srcArg : String) (stages : List String) : String :=
     runChainAux (xs.length + 1) (vecIterNew 0) (lift (vecIterNext store)) stages
   | none => "bad-op"
 
+/-! ### obj: chains applied to an OBJECT deriving `Iter` (`Yarel/Model/IterObj.lean`)
+
+`obj counter <max> <pos> <stage>… <final>`  a `Counter(max)` left at position `pos` (by a loop that broke there)
+`obj bag <src> <stage>… <final>`            a `Bag` over the vector `src`
+The first stage (or the final, if there is none) is applied to the object: it goes through `Proto.mapObj` /
+`filterObj` / `collectObj` / `reduceObj`, i.e. through the object's `iter()`; what follows works on adapters. -/
+
+def showStart {σ : Type} (r : Outcome (σ × Unit)) (k : σ → String) : String :=
+  match r with
+  | .ok (it, _) => k it
+  | .err _ => "error"
+  | .fault site => s!"fault {repr site}"
+
+/-- Adapters answer themselves from `iter()` (`Proto.ofStep`), so what follows the first stage runs on the
+iterator-level functions, as in `chain`. -/
+def runObj {σ : Type} (P : Proto σ Unit Int) (fuel : Nat) (o : σ) : List String → String
+  | [] => "bad-op"
+  | [final] =>
+    match final.splitOn ":" with
+    | ["collect"] => showFault (P.collectObj fuel o ()) fun r => showItems r.2.2
+    | ["reduce", "add", i] =>
+      match i.toInt? with
+      | some init =>
+        showFault (P.reduceObj (fun (b : Int) => pureFn fun v => match v with | .val a => b + a | _ => b) init fuel o ())
+          fun r => toString r.2.2
+      | none => "bad-op"
+    | _ => "bad-op"
+  | stage :: rest =>
+    match stage.splitOn ":" with
+    | ["map", "add", k] =>
+      match k.toInt? with
+      | some k => let r := P.mapObj (pureFn fun a => .val (a + k)) o (); showStart r.1 fun it => runChainAux fuel it r.2.next rest
+      | none => "bad-op"
+    | ["map", "mul", k] =>
+      match k.toInt? with
+      | some k => let r := P.mapObj (pureFn fun a => .val (a * k)) o (); showStart r.1 fun it => runChainAux fuel it r.2.next rest
+      | none => "bad-op"
+    | ["filter", "even"] =>
+      let r := P.filterObj (pureFn fun a => a % 2 == 0) fuel o (); showStart r.1 fun it => runChainAux fuel it r.2.next rest
+    | ["filter", "gt", k] =>
+      match k.toInt? with
+      | some k => let r := P.filterObj (pureFn fun a => decide (a > k)) fuel o (); showStart r.1 fun it => runChainAux fuel it r.2.next rest
+      | none => "bad-op"
+    | _ => "bad-op"
+
 /-! ### dispatch -/
 
 def answer (line : String) : String :=
@@ -181,6 +227,14 @@ def answer (line : String) : String :=
     | _, _, _ => "bad-op"
   | "vecops" :: rest => if rest.isEmpty then "bad-op" else runVecOps (" ".intercalate rest)
   | "chain" :: src :: stages => runChain src stages
+  | "obj" :: "counter" :: mx :: pos :: stages =>
+    match mx.toNat?, pos.toNat? with
+    | some mx, some pos => if stages.isEmpty then "bad-op" else runObj (counterProto mx) (mx + 1) pos stages
+    | _, _ => "bad-op"
+  | "obj" :: "bag" :: src :: stages =>
+    match parseInts src with
+    | some xs => if stages.isEmpty then "bad-op" else runObj (bagProto [xs.map Item.val]) (xs.length + 1) none stages
+    | none => "bad-op"
   | _ => "bad-op"
 
 def run (_args : List String) : IO Unit := do
